@@ -409,7 +409,11 @@ func c07Exec(cfg c07Cfg, path []int, closing bool) (menu int, v *fw.Violation, x
 
 func runC07(c *fw.Ctx) {
 	runSpxFamily(c, "C07")
-	defer runC07Hist(c) // last: if the time budget runs out it is the long histories that are cut short
+	if c.Tier == "thorough" {
+		runC07Hist(c) // the thorough exploration uses its whole budget: the long histories go first there
+	} else {
+		defer runC07Hist(c) // last: if the time budget runs out it is the long histories that are cut short
+	}
 	thorough := c.Tier == "thorough"
 	cfgs := []c07Cfg{
 		{0, []int{3}, []int{0}, 0}, {1, []int{6}, []int{1}, 0}, {5, []int{6, 3}, []int{0, 2}, 0}, {1, []int{3, 1}, []int{2, 0}, 0},
